@@ -229,6 +229,45 @@ def h_water_complete(eng, order_index):
     eng.check(got == ["H1", "H2", "O"], "water-completed", note=f"atom list {['O'] + list(order)} -> after complete(): {got}")
 
 
+def h_partly_protonated_input(eng, ff):
+    """an input that already carries SOME hydrogens (polar-hydrogen-only files of united-atom force fields, a structure
+    protonated by another tool with a few hydrogens deleted): every residue is still completed to the atom set of its
+    topology - which hydrogens the input lacks is a selector (none / the carbon-bound ones / the polar ones / one single
+    hydrogen), the residue type too.  PARSE gives carbon-bound hydrogens zero charge, so a residue left incomplete passes
+    the total-charge check."""
+    from pdb2pqr import main
+
+    resname = ["SER", "LYS", "ASP", "THR"][eng.choice("residue", 4)]
+    strip = eng.choice("hydrogens_absent_from_input", 4)
+    opt = eng.flag("opt")
+    seq = ["ALA", resname, "ALA"]
+    bm0, defn0 = fixtures.prepared(fixtures.peptide_lines(seq))
+    main.non_trivial(fixtures.Args(ff=ff, pka_method=None, debump=False, opt=False), bm0, None, defn0, False)
+    lines, serial = [], 1
+    for r in bm0.residues:
+        for a in r.atoms:
+            if a.is_hydrogen:
+                parent = a.bonds[0].name if a.bonds else ""
+                carbon_bound = parent.startswith("C")
+                if (strip == 1 and carbon_bound) or (strip == 2 and not carbon_bound and r is bm0.residues[1]) or (strip == 3 and r is bm0.residues[1] and a.name == "HA"):
+                    continue
+            lines.append(fixtures.atom_line(serial, a.name, r.name, "A", r.res_seq, a.x, a.y, a.z, element="H" if a.is_hydrogen else a.name[0]))
+            serial += 1
+    lines += ["TER", "END"]
+    try:
+        bm, defn = fixtures.prepared(lines)
+        res = main.non_trivial(fixtures.Args(ff=ff, pka_method=None, debump=False, opt=opt), bm, None, defn, False)
+    except (ValueError, KeyError, TypeError, AttributeError) as e:
+        eng.check(True, "loud-failure-tolerated", note=f"{type(e).__name__}: {str(e)[:60]}")
+        return
+    missed = {id(a.residue) for a in res["missed_residues"]}
+    for r in bm.residues:
+        if id(r) in missed:
+            continue
+        have, want = sorted(a.name for a in r.atoms), sorted(n for n in r.reference.map if n not in ("N+1", "C-1"))
+        eng.check(have == want, "atom-set-is-the-final-topology", note=f"input with hydrogens partly absent (case {strip}): {r} is written with {len(have)} atoms, its topology has {len(want)}: missing {sorted(set(want) - set(have))[:6]}, extra {sorted(set(have) - set(want))[:6]}")
+
+
 def obligations(tier):
     obs = []
     plan = [("SER", "amber", "internal", True), ("GLY", "parse", "internal", False), ("CYS", "charmm", "cterm", False), ("SER", "amber", "nterm", False)] if tier == "quick" else [(r, ff, pos, w) for r in ("SER", "GLY", "CYS", "ASP") for ff, w in (("amber", True), ("parse", False)) for pos in ("nterm", "internal", "cterm")]
@@ -265,6 +304,8 @@ def obligations(tier):
 
     for resname in ("ASH", "GLH"):
         obs.append(Obligation(f"carboxylic-completion-{resname}", c14.h_carboxylic_site, dict(resname=resname, prop="C03"), group="completion", time_cap=1500, max_paths=100000))
+    for ff in ("parse", "amber"):
+        obs.append(Obligation(f"partly-protonated-input-{ff}", h_partly_protonated_input, dict(ff=ff), group="pipeline", time_cap=1500))
     return obs
 
 
